@@ -28,6 +28,8 @@ def obligations(tier):
     C02 = importlib.import_module("props.C02")
     o += [x for x in C02.obligations(tier) if x.name.startswith("callback_suspend")]
     o += deepen([x for x in o if x.hooks], tier)
+    C18 = importlib.import_module("props.C18")
+    o += [x for x in C18.own_obligations(tier) if x.name == "revive_user_pool"]
     return o
 
 MANIFEST_ENTRY = {
